@@ -259,4 +259,89 @@ theorem readLineGo_raw_line (buf p : List Byte) (acc cs : List (Char × Bool)) (
         obtain ⟨pre, h1, h2, h3⟩ := ih _ _ h
         exact cons_ok (utf8_not_nl buf b (Or.inr ⟨code, hu, hc⟩)) pre h1 h2 h3
 
+/-- a byte below 128 that does not finish the character `d` is not the byte `d` -/
+theorem utf8_not_delim (buf : List Byte) (b : Byte) (d : Nat) (hd : d < 128)
+    (h : utf8Check (buf ++ [b]) = .more ∨ ∃ code, utf8Check (buf ++ [b]) = .ok code ∧ code ≠ d) :
+    b.toNat ≠ d := by
+  intro hb
+  have hlt : b.toNat < 0x80 := by omega
+  by_cases hne : buf = []
+  · subst hne
+    have hs : utf8Check [b] = .ok b.toNat := by simp [utf8Check, hlt]
+    rcases h with h | ⟨code, h1, h2⟩
+    · simp [hs] at h
+    · simp only [List.nil_append, hs, U8.ok.injEq] at h1; omega
+  · have := utf8_ascii_mid buf b hlt hne
+    rcases h with h | ⟨code, h1, _⟩
+    · rw [this] at h; simp at h
+    · rw [this] at h1; simp at h1
+
+/-- end of input: everything was consumed -/
+theorem readLineGo_eof (d : Nat) (raw esc : Bool) (buf p : List Byte) (acc : List (Char × Bool)) :
+    (readLineGo d raw esc buf p acc).2.1 = .eof → (readLineGo d raw esc buf p acc).2.2 = [] := by
+  induction p generalizing esc buf acc with
+  | nil => intro _; simp [readLineGo]
+  | cons b t ih =>
+    simp only [readLineGo]
+    cases hu : utf8Check (buf ++ [b]) with
+    | more => exact ih _ _ _
+    | bad => intro h; simp at h
+    | ok code =>
+      simp only []
+      cases esc with
+      | true =>
+        simp only [if_true]
+        by_cases hc : code = 10
+        · simp only [hc, if_true]; exact ih _ _ _
+        · simp only [hc, if_false]; exact ih _ _ _
+      | false =>
+        simp only [Bool.false_eq_true, if_false]
+        by_cases hc : code = d
+        · simp only [hc, if_true]; intro h; simp at h
+        · simp only [hc, if_false]
+          by_cases hbs : code = 92 ∧ (!raw) = true
+          · simp only [hbs, and_self, if_true]; exact ih _ _ _
+          · simp only [hbs, if_false]; exact ih _ _ _
+
+/-- a successful `read -r -d X`: the delimiter byte does not occur before the end of what was
+    consumed -/
+theorem readLineGo_raw_first (d : Nat) (hd : d < 128) (buf p : List Byte) (acc cs : List (Char × Bool))
+    (rest : List Byte) (h : readLineGo d true false buf p acc = (cs, .found, rest)) :
+    ∃ pre bl, pre ++ rest = p ∧ pre.getLast? = some bl ∧ bl.toNat = d
+      ∧ ∀ x ∈ pre.dropLast, x.toNat ≠ d := by
+  induction p generalizing buf acc with
+  | nil => by_cases hb : buf = [] <;> simp [readLineGo, hb] at h
+  | cons b t ih =>
+    have cons_ok : b.toNat ≠ d → ∀ pre bl, pre ++ rest = t → pre.getLast? = some bl → bl.toNat = d →
+        (∀ x ∈ pre.dropLast, x.toNat ≠ d) →
+        ∃ pre' bl', pre' ++ rest = b :: t ∧ pre'.getLast? = some bl' ∧ bl'.toNat = d
+          ∧ ∀ x ∈ pre'.dropLast, x.toNat ≠ d := by
+      intro hb pre bl h1 h2 h3 h4
+      cases pre with
+      | nil => simp at h2
+      | cons x xs =>
+        refine ⟨b :: x :: xs, bl, by simp [← h1], by simpa [List.getLast?_cons_cons] using h2, h3, ?_⟩
+        simp only [List.dropLast_cons_cons]
+        intro y hy
+        cases hy with
+        | head => exact hb
+        | tail _ hm' => exact h4 y hm'
+    simp only [readLineGo] at h
+    cases hu : utf8Check (buf ++ [b]) with
+    | more =>
+      simp only [hu] at h
+      obtain ⟨pre, bl, h1, h2, h3, h4⟩ := ih _ _ h
+      exact cons_ok (utf8_not_delim buf b d hd (Or.inl hu)) pre bl h1 h2 h3 h4
+    | bad => simp [hu] at h
+    | ok code =>
+      simp only [hu, Bool.false_eq_true, if_false] at h
+      by_cases hc : code = d
+      · simp only [hc, if_true, Prod.mk.injEq, true_and] at h
+        subst hc
+        have := (utf8_ok_ascii buf b code hd hu).2
+        exact ⟨[b], b, by simp [h.2], by simp, this, by simp⟩
+      · simp only [hc, if_false, Bool.not_true, Bool.false_eq_true, and_false] at h
+        obtain ⟨pre, bl, h1, h2, h3, h4⟩ := ih _ _ h
+        exact cons_ok (utf8_not_delim buf b d hd (Or.inr ⟨code, hu, hc⟩)) pre bl h1 h2 h3 h4
+
 end YashModel.Input
